@@ -102,6 +102,29 @@ Theorem every_cited_theorem_exists :
 Proof. vm_compute. reflexivity. Qed.
 Print Assumptions every_cited_theorem_exists.
 
+(* every expression of the source that decides which entries are pruned is `~equivalent(data, fill)`
+   — the NaN-aware token equality — on the expected operands (GENERATED list; a `!=` / `==`
+   comparison, another helper or a renamed operand no longer matches), and COO._reduce_return prunes
+   through the constructor *)
+Theorem prune_sites_use_equivalent :
+  list_eqb5 (map prune_key prune_sites) prune_expected = true /\ coo_reduce_return_prunes ctor_sites = true.
+Proof. vm_compute. split; reflexivity. Qed.
+Print Assumptions prune_sites_use_equivalent.
+
+(* ... which is what makes the result pruned: whatever the token equality is *)
+Theorem prune_by_equivalent_pruned :
+  forall (V : Type) (veqb : V -> V -> bool) (fill : V) (data : list V),
+    forallb (fun v => negb (veqb v fill)) (prune_by (fun v => negb (veqb v fill)) data) = true.
+Proof. exact @prune_by_equivalent_pruned_proof. Qed.
+Print Assumptions prune_by_equivalent_pruned.
+
+(* ... and an IEEE `!=` mask does not (NaN fill) *)
+Theorem prune_by_ieee_neq_not_pruned :
+  exists (nan fill : Z) (data : list Z),
+    forallb (fun v => negb (v =? fill)) (prune_by (fun v => ieee_neq nan v fill) data) = false.
+Proof. exact prune_by_ieee_neq_not_pruned_proof. Qed.
+Print Assumptions prune_by_ieee_neq_not_pruned.
+
 (* an absent flag promises nothing: the defaults of COO.__init__ are sorted=False,
    has_duplicates=True (prune=False), of GCXS.__init__ prune=False *)
 Theorem constructor_defaults_promise_nothing :
